@@ -245,7 +245,8 @@ def pick_rotating(index, sizes_sorted, B, quick, rot, rng):
         got = pick_by_size(index, sizes_sorted, B, rels, rng)
         if got and got[0][0] in ("=", "-1", "+1"):
             return got
-    return pick_by_size(index, sizes_sorted, B, (), rng)
+    near = pick_by_size(index, sizes_sorted, B, (), rng)  # no size within one byte is reachable: nearest below and above
+    return near[next(rot) % len(near):][:1] if quick and near else near
 
 
 def bmp_stride(w, bpp):
